@@ -3,15 +3,22 @@
 
 `entropy_read` = open `/dev/urandom`, `entropy_read_fill`, close.  The operating system is a byte
 stream plus a script of answers to `read(2)`: each answer hands over at most `k+1` of the next
-bytes (a short read), or is an end-of-file, or an error.  The model follows the loop of
-`entropy_read_fill` (`buf += lenread; buflen -= lenread`).
+bytes (a short read), or is an end-of-file, or an error with its `errno`.  The model follows the loop
+of `entropy_read_fill` (`buf += lenread; buflen -= lenread`).  The C looks at `lenread == -1` only:
+**every** error, `EINTR` and `EAGAIN` included, ends the call with failure (there is no retry), and
+nothing more is stored into the caller's buffer.
 -/
 namespace Percival.Model.OsEntropy
+
+/-- the `errno` a failing `read(2)` leaves; the C does not look at it -/
+inductive Errno where
+  | eintr | eio | eagain
+  deriving Repr, DecidableEq
 
 inductive ReadAns where
   | chunk (k : Nat)      -- read returns min(k+1, requested) bytes
   | eof                  -- read returns 0
-  | err                  -- read returns -1 (EIO, EINTR, …: all fatal in the C)
+  | err (e : Errno)      -- read returns -1 with errno = e (all fatal in the C, whatever e is)
   deriving Repr, DecidableEq
 
 structure Res where
@@ -37,7 +44,7 @@ def fill : (fuel : Nat) → (need : Nat) → (stream : List UInt8) → List Read
         if n = 0 then { r with ok := false, calls := (need, 0) :: r.calls }
         else fill f (need - n) (stream.drop n) as { r with got := r.got ++ stream.take n, calls := (need, (n : Int)) :: r.calls }
     | .eof => { r with ok := false, calls := (need, 0) :: r.calls }
-    | .err => { r with ok := false, calls := (need, -1) :: r.calls }
+    | .err _ => { r with ok := false, calls := (need, -1) :: r.calls }
 
 /-- `entropy_read(buf, buflen)`: `openOk = false` models `open("/dev/urandom")` failing -/
 def entropyRead (openOk : Bool) (n : Nat) (stream : List UInt8) (script : List ReadAns) : Res :=
